@@ -74,14 +74,14 @@ func fnClientSetName(ctx *cmdContext, args map[string]any) (output respValue, er
 		}
 	}
 
-	ctx.cs.name = name
+	ctx.cs.setName(name)
 	output.data = rstrOK
 	return
 }
 
 func fnClientGetName(ctx *cmdContext, args map[string]any) (output respValue, err error) {
-	if ctx.cs.name != "" {
-		output.data = respBulkString(ctx.cs.name)
+	if name := ctx.cs.getName(); name != "" {
+		output.data = respBulkString(name)
 	}
 	return
 }
